@@ -142,9 +142,6 @@ def traceback_summary(text):
 
 
 # ---- values -------------------------------------------------------------------------------------------------------------
-CAUGHT_BY_DOCUMENTED_EVALUATION = ('SyntaxError', 'ValueError', 'TypeError', 'NameError')
-
-
 def int_class(s):
     """'int' | 'nonint' | 'raises:<ExceptionType>' - the manual: "An expression using Python syntax. The expression
     must evaluate to an integer (a Python int)".  Only ever called with strings of the fixed vocabulary."""
@@ -184,44 +181,46 @@ def template_invalid(template, regex='a'):
 
 
 def range_invalid(s):
-    """LINE-NUMBER-RANGE: INTEGER | :INTEGER | INTEGER: | INTEGER:INTEGER ("INTEGER must not contain ':'")
-    -> (invalid?, exception type an operand raises that the documented evaluation does not turn into 'not an integer')"""
+    """LINE-NUMBER-RANGE: INTEGER | :INTEGER | INTEGER: | INTEGER:INTEGER ("INTEGER must not contain ':'")"""
     parts = s.split(':')
     if len(parts) > 2:
-        return True, None
+        return True
     if len(parts) == 2 and parts[0] == '' and parts[1] == '':
-        return True, None
-    bad, exc = False, None
+        return True
     for p in parts:
         if p == '' and len(parts) == 2:
             continue
-        c = int_class(p)
-        if c != 'int':
-            bad = True
-            if c.startswith('raises:') and c[7:] not in CAUGHT_BY_DOCUMENTED_EVALUATION:
-                exc = c[7:]
-    return bad, exc
+        if int_class(p) != 'int':
+            return True
+    return False
 
 
-def path_glob_refused(pattern):
-    """does pathlib refuse the glob pattern? (file matcher `path`: "Python file name matching")"""
-    import pathlib
-    try:
-        pathlib.PurePosixPath('/a/b').match(pattern)
-        return False
-    except ValueError:
-        return True
+# ---- document structure (for the defect model of KF-C18-5) ----------------------------------------------------------------
+PHASE_ORDER = ['conf', 'setup', 'act', 'before-assert', 'assert', 'cleanup']
+_HEADER_RE = re.compile(r'^\s*\[([a-z-]+)\]\s*$')
+_HEREDOC_RE = re.compile(r'(?:^|\s)<<([0-9a-zA-Z_-]+)\s*$')
 
 
-def candidate_strings(texts):
-    """every naked token and every quoted string of the texts (for the defect models: which argument made it fail)"""
+def phase_of_lines(text):
+    """-> list (one entry per line of file_lines(text)): the phase the line belongs to ('act' before the first
+    header - the default phase of a case), or None for a phase header line.  The lines of a here-document belong to
+    the instruction that starts it, whatever they look like."""
     out = []
-    seen = set()
-    for text in texts:
-        for m in re.finditer(r"'([^'\n]*)'|\"([^\"\n]*)\"|(\S+)", text):
-            s = m.group(1) if m.group(1) is not None else (m.group(2) if m.group(2) is not None else m.group(3))
-            for c in (s, s.strip('\'"')):
-                if c not in seen:
-                    seen.add(c)
-                    out.append(c)
+    phase = 'act'
+    marker = None
+    for line in file_lines(text):
+        if marker is not None:
+            out.append(phase)
+            if line == marker:
+                marker = None
+            continue
+        m = _HEADER_RE.match(line)
+        if m and m.group(1) in PHASE_ORDER:
+            phase = m.group(1)
+            out.append(None)
+            continue
+        out.append(phase)
+        h = _HEREDOC_RE.search(line)
+        if h and phase != 'act':
+            marker = h.group(1)
     return out
